@@ -203,9 +203,7 @@ struct Env {
 }
 
 fn fresh_ctx_exec(text: &str) -> Result<Value, ()> {
-    let ast = parse_expression(text).map_err(|_| ())?;
-    let mut ctx = Context::new();
-    ast.exec(&mut ctx).map_err(|_| ())
+    expression_engine::execute(text, expression_engine::create_context!()).map_err(|_| ())
 }
 
 fn run_script(s: &Sexp, args: &[Value], env: &Env) -> Result<Value, ()> {
@@ -218,6 +216,11 @@ fn run_script(s: &Sexp, args: &[Value], env: &Env) -> Result<Value, ()> {
             Ok(args.get(i).cloned().unwrap_or(Value::None))
         }
         "err" => Err(()),
+        // the same, surfacing as the engine's "should be a number" error (what `value.decimal()?` yields in a real handler)
+        "errnum" => {
+            ERR_AS_NUMBER.with(|f| f.set(true));
+            Err(())
+        }
         // the message carries the words of the usual run-time panics: a panic is a panic whatever it says
         "panic" => panic!("scripted panic (attempt to add with overflow / index out of bounds / unwrap on a None value)"),
         "log" => {
@@ -263,8 +266,18 @@ fn run_script(s: &Sexp, args: &[Value], env: &Env) -> Result<Value, ()> {
     }
 }
 
+thread_local! {
+    static ERR_AS_NUMBER: std::cell::Cell<bool> = std::cell::Cell::new(false);
+}
+
 fn to_engine_err() -> impl Fn(()) -> ExprErr {
-    |_| script_error()
+    |_| {
+        if ERR_AS_NUMBER.with(|f| f.replace(false)) {
+            Value::None.decimal().err().unwrap()
+        } else {
+            script_error()
+        }
+    }
 }
 
 // An engine Error value can only be obtained from the engine: get one by failing an accessor.
@@ -660,6 +673,9 @@ fn handle(line: &str, ctxs: &mut HashMap<String, Ctx>, log: &Log) -> String {
         "EXEC" | "EXECAST" | "EXECW" => {
             let id = f[1].to_string();
             let Some(mut c) = ctxs.remove(&id) else { return "BADREQ".into() };
+            // a program given as text is evaluated through the public entry point `execute` (on a handle to the same
+            // context table, so that the context can be inspected afterwards); the tree is parsed here only to be shown
+            let src: Option<String> = if f[0] == "EXECAST" { Option::None } else { text(2) };
             let ast: ExprAST<'static> = if f[0] == "EXECAST" {
                 match f.get(2).and_then(|s| sexp::parse(s)).and_then(|s| sexp_to_ast(&s)) {
                     Some(a) => a,
@@ -690,7 +706,12 @@ fn handle(line: &str, ctxs: &mut HashMap<String, Ctx>, log: &Log) -> String {
                 std::thread::Builder::new()
                     .stack_size(8 << 20)
                     .spawn(move || {
-                        let r = catch_unwind(AssertUnwindSafe(|| ast.exec(&mut c.ctx)));
+                        let h = c.ctx.0.clone();
+                        let r = catch_unwind(AssertUnwindSafe(|| match &src {
+                            Some(t) => expression_engine::execute(t, std::mem::replace(&mut c.ctx, Context::new())),
+                            Option::None => ast.exec(&mut c.ctx),
+                        }));
+                        c.ctx.0 = h;
                         let out = format!("{}\t{}\t{}", outcome(r), dump_ctx(&c), take_log(&log2));
                         let _ = tx.send((out, c));
                     })
@@ -707,7 +728,12 @@ fn handle(line: &str, ctxs: &mut HashMap<String, Ctx>, log: &Log) -> String {
                     }
                 }
             } else {
-                let r = catch_unwind(AssertUnwindSafe(|| ast.exec(&mut c.ctx)));
+                let h = c.ctx.0.clone();
+                let r = catch_unwind(AssertUnwindSafe(|| match &src {
+                    Some(t) => expression_engine::execute(t, std::mem::replace(&mut c.ctx, Context::new())),
+                    Option::None => ast.exec(&mut c.ctx),
+                }));
+                c.ctx.0 = h;
                 let out = format!("{}\t{}\t{}\t{}", ast_s, outcome(r), dump_ctx(&c), take_log(log));
                 ctxs.insert(id, c);
                 out
